@@ -33,12 +33,13 @@ def prelude(rng, proj):
     return steps
 
 
-def scenario(rng, k, crash=None, defect=None, prior=None, stale=None):
+def scenario(rng, k, crash=None, defect=None, prior=None, stale=None, v1index=None):
     proj = G.base_project(rng)
     steps = prelude(rng, proj)
     defect = defect if defect is not None else rng.choice(DEFECTS)
     prior = prior if prior is not None else rng.choice(["empty", "empty", "other", "same", "destdir", "pkgfile"])
     stale = stale if stale is not None else (rng.random() < 0.3)
+    v1index = v1index if v1index is not None else (rng.random() < 0.25)
     label, how, arg = defect
     if how:
         steps.append({"cmd": "damage", "archive": "../A.tar.gz", "how": how, "arg": arg})
@@ -59,6 +60,8 @@ def scenario(rng, k, crash=None, defect=None, prior=None, stale=None):
                       "crash_at": rng.randrange(12, 40), "label": "stale"})
         if prior == "empty":
             steps.append({"cmd": "gc", "argv": ["gc"]})
+    if v1index:
+        steps.append({"cmd": "downgrade"})
     st = {"cmd": "restore", "argv": ["restore", "../A.tar.gz"], "archive": "../A.tar.gz", "defect": label,
           "label": "target", "count": crash is None}
     if crash is not None:
@@ -67,7 +70,7 @@ def scenario(rng, k, crash=None, defect=None, prior=None, stale=None):
     if rng.random() < 0.5:
         steps.append({"cmd": "gc", "argv": ["gc", "-n"]} if rng.random() < 0.5 else G.run_step(rng, 400, again=False))
     return {"project": proj, "steps": steps, "tag": [k, label, prior, stale, crash],
-            "_meta": {"defect": defect, "prior": prior, "stale": stale}}
+            "_meta": {"defect": defect, "prior": prior, "stale": stale, "v1index": v1index}}
 
 
 def sig(scn, h, st, clause):
@@ -88,7 +91,8 @@ def main(tier):
     for d in DEFECTS:
         for prior in ["empty", "other", "same", "destdir", "pkgfile"]:
             for stale in ([False, True] if (tier == "thorough" or prior == "empty") else [False]):
-                base.append(scenario(random.Random(rng.randrange(1 << 30)), k, defect=d, prior=prior, stale=stale))
+                base.append(scenario(random.Random(rng.randrange(1 << 30)), k, defect=d, prior=prior, stale=stale,
+                                     v1index=(prior in ("other", "same") and k % 2 == 0)))
                 k += 1
     hists, traces, verdicts, tr, other, nontriv = F.run_and_judge(rep, base, CLAUSES, sig_fn=sig)
     # pass 2: kill the target restore before every effectful call
@@ -110,7 +114,7 @@ def main(tier):
         seed = rng.randrange(1 << 30)
         for c in ks:
             crash_scns.append(scenario(random.Random(seed), len(crash_scns), crash=c, defect=m["defect"], prior=m["prior"],
-                                       stale=m["stale"]))
+                                       stale=m["stale"], v1index=m.get("v1index", False)))
     h2, t2, v2, tr2, other2, nontriv2 = F.run_and_judge(rep, crash_scns, CLAUSES, sig_fn=sig)
     for c, n in other2.items():
         other[c] = other.get(c, 0) + n
